@@ -4,11 +4,11 @@ from . import common as C
 
 MANIFEST = dict(
    technique="Lean 4 proof of the FinalizeIssue priority chain for arbitrary error maps + three translators regenerated on every run: (1) a go/ast catalogue of EVERY call in the library's source that creates an issue, reaches FinalizeIssue, parses a nested schema or copies a ParseContext, with the message sources each call hands on (Gen/IssueSites.lean); (2) the behavioural wiring of 60 issue leaves x 14 nesting positions under sentinel error maps (Gen/MsgWiring.lean), tied to (1) by the call stack captured when the message is resolved; (3) the locale x parameter table (Gen/LocaleTable.lean). Theorems are decided in Lean over the whole regenerated tables, and every cell of the run (source subsets, silent sources, issue-dependent maps, SetConfig histories, random nesting chains) is compared with the model's prediction",
-   text="finalize_priority proves, for arbitrary error-map functions, that FinalizeIssue's message is the first non-empty of check message, schema message, per-parse map, global custom map, locale, built-in text. c18_sites_partial (decide over the go/ast table of every issue-creating / finalising / nested-parse / context-copy call) and c18_sites_all_partial: every call hands on every source except what siteGaps lists for it, so a new call that forgets the context changes a proof obligation; c18_static_dynamic ties that table to the run. c18_wired_partial / c18_all_sites_partial: at every site of the behavioural catalogue and every configuration outside the listed gaps the message comes from the first configured source; dep_spec / dep_site extend this to maps that answer for some issues and decline others; nested_message / c18_every_depth (induction over the chain of positions, base case the per-site table, per-position table c18_positions_exact) give 'at every nesting depth'. c18_locales / c18_locales_cover / c18_locales_producible: every bundled locale returns a non-empty message over the full parameter table (origin x threshold x inclusive, format x detail, expected x input kind, keys, values, divisor, every code), whose columns include every kind the creation sites name in the source. The gaps are open known findings with witness theorems. Round 4b: the driver predicts every cell through Msg.nestedMessage from the HAND-WRITTEN expectation (Model/MsgExpect.lean: listed gaps, expected forwarding), and c18_observed_eq_expected / c18_positions_forward / c18_gaps_tight (decide over the regenerated tables, equality) tie the observed behaviour to it; expected_message_eq / c18_every_depth_expected give every nesting depth for the executed definition. c18_sites_covered: every finalising call of the static table is reached by a leaf or a cell of the coverage search (runtime stack link), is dead code, or is listed with a reason; c18_static_dynamic_cells ties the search's observations to the static rows. c18_producible_closed / c18_creator_codes_columns / c18_sites_agree_with_creators / c18_creators_closed: the producible set is closed under the creators of internal/issues (C04's regenerated creator table).",
+   text="finalize_priority proves, for arbitrary error-map functions, that FinalizeIssue's message is the first non-empty of check message, schema message, per-parse map, global custom map, locale, built-in text. c18_sites_partial (decide over the go/ast table of every issue-creating / finalising / nested-parse / context-copy call) and c18_sites_all_partial: every call hands on every source except what siteGaps lists for it, so a new call that forgets the context changes a proof obligation; c18_static_dynamic ties that table to the run. c18_wired_partial / c18_all_sites_partial: at every site of the behavioural catalogue and every configuration outside the listed gaps the message comes from the first configured source; dep_spec / dep_site extend this to maps that answer for some issues and decline others; nested_message / c18_every_depth (induction over the chain of positions, base case the per-site table, per-position table c18_positions_exact) give 'at every nesting depth'. c18_locales / c18_locales_cover / c18_locales_producible: every bundled locale returns a non-empty message over the full parameter table (origin x threshold x inclusive, format x detail, expected x input kind, keys, values, divisor, every code), whose columns include every kind the creation sites name in the source. The gaps are open known findings with witness theorems. Round 4b: the driver predicts every cell through Msg.nestedMessage from the HAND-WRITTEN expectation (Model/MsgExpect.lean: listed gaps, expected forwarding), and c18_observed_eq_expected / c18_positions_forward / c18_gaps_tight (decide over the regenerated tables, equality) tie the observed behaviour to it; expected_message_eq / c18_every_depth_expected give every nesting depth for the executed definition. c18_sites_covered: every finalising call of the static table is reached by a leaf or a cell of the coverage search (runtime stack link), is dead code, or is listed with a reason; c18_static_dynamic_cells ties the search's observations to the static rows. c18_producible_closed / c18_creator_codes_columns / c18_sites_agree_with_creators / c18_creators_closed: the producible set is closed under the creators of internal/issues (C04's regenerated creator table). Round 5: multi_per_issue (Proofs/C18Multi.lean) - for ONE check that reports any number of issues, below any chain, for arbitrary message functions (the check-level message included, applied to each issue as executeChecks does) with the raiser's listed gap unconfigured, the message of every issue is the first non-empty answer FOR THAT ISSUE; the driver evaluates that definition (Msg.multiMessages) per issue on the `multi` cells (custom Check/With functions pushing 2-4 issues, every source a message function that answers for a subset of them); stamped_first_breaks_multi is the witness for the resolve-once-per-check variant.",
    note="Trusted: Lean kernel; axioms propext/Classical.choice/Quot.sound only; the Go harness (leaf catalogue, sentinel and issue-dependent maps, call-stack capture), the go/ast translator's classification of expressions (syntactic, no type checking: a context is 'the caller's' when it is derived from a parameter of the enclosing function), the writers of the Gen tables and the comparer. 54 of the 107 finalising calls have a runtime witness (leaf or coverage cell), 10 are dead code, 43 are listed with a reason but not proved unreachable (defensive branches, or calls where no message source is consulted so the stack link cannot attribute them). Plain Union / Xor branches do not report their issues, so there is no message to attribute there (the matched variant of a discriminated union is covered).",
    design="DESIGN.md §5 C18; notes/C18.md")
 
-MODULES = ["Gozod.Proofs.C18", "Gozod.Proofs.C18Cover"]
+MODULES = ["Gozod.Proofs.C18", "Gozod.Proofs.C18Cover", "Gozod.Proofs.C18Multi"]
 THEOREMS = ["Gozod.C18." + t for t in [
     "finalize_priority", "finalize_check_first", "finalize_default_last", "finalize_silent_parse", "finalize_silent_custom", "site_winner",
     "c18_wired_partial", "c18_all_sites_partial", "c18_wired_full_false", "gap_breaks_priority",
@@ -20,6 +20,7 @@ THEOREMS = ["Gozod.C18." + t for t in [
     "c18_every_depth_expected", "c18_every_depth_expected_gap", "c18_gapless_leaves",
     "c18_sites_covered", "c18_sites_witnessed", "c18_producible_closed", "c18_creator_codes_columns", "c18_declared_codes_columns",
     "c18_sites_agree_with_creators", "c18_creators_closed", "c18_static_dynamic_cells", "c18_reach_obs_nonvacuous",
+    "multi_per_issue", "dep_fn_sources_at", "multi_spec_dep", "stamped_first_breaks_multi",
 ]]
 
 GEN = os.path.join(C.LEAN, "Gozod", "Gen")
@@ -291,6 +292,14 @@ def key(op, impl, M, S):
         gk = row["key"].rsplit("#", 1)[0] if row else t[2]
         k = "static:missing-%s:%s" % (src, gk)
         return k if impl == M else k + ":model-differs"
+    if t[1] == "multi":
+        # one check that reported several issues, every source a message function: per issue, the first source that answers
+        raiser = t[2].split("@")[0]
+        if impl in ("panic", "n") or "n" in impl.split(","):
+            return "multi:%s:%s" % (raiser, "panic" if impl == "panic" else "issue-not-reported")
+        if impl != M:
+            return "multi:%s:model-differs" % raiser
+        return "wire:%s:missing-s" % raiser      # impl = model != spec: the raiser's listed gap (the schema's own message)
     site = t[2]
     d = SITES.get(site, {})
     if ">" in site:   # outer>inner: the model's entry is the inner wrapper's
@@ -322,7 +331,7 @@ def key(op, impl, M, S):
 
 def describe(op):
     t = C.op_body(op).split(" ")
-    if t[1] in ("loc", "hist", "dep", "reach"):
+    if t[1] in ("loc", "hist", "dep", "reach", "multi"):
         return C.op_comment(op).strip()
     return ("%s; configured sources %s of applicable %s (c = check message \"CHK\", s = schema message \"SCH\", p = ParseContext{Error: →\"CTX\"}, "
             "g = SetConfig(CustomError: →\"CUS\"), l = SetConfig(LocaleError: →\"LOC\")); observed = which sentinel is ZodIssue.Message (d = built-in text)"
@@ -454,7 +463,10 @@ def run(res):
         "x 14 positions (top, object field, slice element, array item, tuple item, record value, map value, object in slice, discriminated-union variant, "
         "lazy, pipe, struct field, intersection, record key) x every subset of the applicable sources (up to 32) with constant sentinel maps; random nesting "
         "chains of depth 2-4 (quick 40, thorough 400 + every pair of the 8 container positions) x each source alone / all / none; silent sources; "
-        "issue-dependent maps (8 map kinds per source, 10 random assignments per site, thorough 60); SetConfig histories; "
+        "issue-dependent maps (8 map kinds per source, 10 random assignments per site, thorough 60); MULTI-ISSUE checks (5 raisers: String/Int/Slice/Object "
+        ".Check, String.With x 14 positions + 12 random chains x 8 random cells (thorough 40 / 80 chains): one check function pushing k = 2..4 raw issues of "
+        "distinct codes from a pool of 8, with / without sub-path and explicit Input, every source a message function of the 8 kinds, the winner compared "
+        "PER ISSUE); SetConfig histories; "
         "every bundled locale x the full parameter table. distinct = distinct cells.")
     res.assumptions += [
         "a message source is identified by a sentinel string; issue-dependent maps are drawn from 8 kinds (by code, by input kind, by origin) - other maps are covered by finalize_priority / dep_spec (arbitrary maps) only",
